@@ -153,7 +153,7 @@ def in_domain(desc, v):
         if isinstance(v, (list, tuple)):
             return len(v) == len(mem) and all(in_domain(d, x) for (n, d), x in zip(mem, v))
         return False
-    if k == "fixstr":
+    if k in ("fixstr", "lstr"):
         return isinstance(v, str) and all(_char_ok(c, 1) for c in v)
     if k == "udt":
         if not isinstance(v, dict):
@@ -214,6 +214,10 @@ def encode(desc, v):
         cap, ld = desc[1], desc[2]
         raw = v.encode("iso-8859-1")[:cap]
         return encode(ld, len(raw)) + raw + bytes(cap - len(raw))
+    if k == "lstr":  # Logix string structure: DINT LEN, SINT DATA[cap], padded to size
+        size, cap = desc[1], desc[2]
+        raw = v.encode("iso-8859-1")[:cap]
+        return len(raw).to_bytes(4, "little") + raw + bytes(size - 4 - len(raw))
     if k == "udt":
         _, size, members, bits, private = desc
         buf = bytearray(size)
@@ -310,6 +314,13 @@ def decode(desc, data, pos=0):
             raise RefError("negative string length")
         b, pos = _take(data, pos, desc[1])
         return b[:n].decode("iso-8859-1"), pos
+    if k == "lstr":
+        size, cap = desc[1], desc[2]
+        b, end = _take(data, pos, size)
+        n = int.from_bytes(b[:4], "little", signed=True)
+        if n < 0:
+            raise RefError("negative string length")
+        return b[4:4 + cap][:n].decode("iso-8859-1"), end
     if k == "udt":
         _, size, members, bits, private = desc
         end = pos + size
@@ -354,7 +365,7 @@ def size_of(desc):
         return t
     if k == "fixstr":
         return size_of(desc[2]) + desc[1]
-    if k == "udt":
+    if k in ("udt", "lstr"):
         return desc[1]
     if k == "ipv4":
         return 4
@@ -384,7 +395,7 @@ def min_size(desc):
         return sum(min_size(d) for n, d in desc[1])
     if k == "fixstr":
         return min_size(desc[2]) + desc[1]
-    if k == "udt":
+    if k in ("udt", "lstr"):
         return desc[1]
     if k == "ipv4":
         return 4
